@@ -7,6 +7,8 @@ package main
 //   - genesis export + re-import mid-history, followed by the hooks on the imported state.
 
 import (
+	"crypto/sha256"
+	"encoding/hex"
 	"fmt"
 
 	"verif/harness/abci"
@@ -14,6 +16,7 @@ import (
 
 	govtypes "github.com/KiraCore/sekai/x/gov/types"
 	multistakingtypes "github.com/KiraCore/sekai/x/multistaking/types"
+	recoverytypes "github.com/KiraCore/sekai/x/recovery/types"
 	slashingtypes "github.com/KiraCore/sekai/x/slashing/types"
 	spendingtypes "github.com/KiraCore/sekai/x/spending/types"
 	upgradetypes "github.com/KiraCore/sekai/x/upgrade/types"
@@ -298,4 +301,126 @@ func runExportImport(seed uint64, ops hx.Counter) []Case {
 	log = append(log, "on the imported chain (heights restart at 1, time continues): blocks dt=5,5,310,310,5,90000,5 each with a bank send")
 	h.Blocks = append(h.Blocks, h2.Blocks...)
 	return []Case{histCase("export-import", h, log, map[string]interface{}{"chain_seed": seed})}
+}
+
+// ------------------------------------------------------------------ the state the gov end-blocker enumerates, perturbed by every other writer
+
+type PerturbParams struct {
+	Seed       uint64 `json:"chain_seed"`
+	Individual []int  `json:"vote_permissions_whitelisted_individually(index into proposal types)"`
+	ViaRole    []int  `json:"vote_permissions_held_through_a_role"`
+	Councilor  bool   `json:"claims_a_councilor_seat"`
+	VoteBefore bool   `json:"casts_a_vote_on_a_pending_proposal_first"`
+	Perturb    string `json:"perturbation"` // rotate | rotate-validator | unassign-role | blacklist | remove-permission | none
+}
+
+var perturbations = []string{"rotate", "rotate", "rotate-validator", "unassign-role", "blacklist", "remove-permission", "none"}
+
+func drawPerturb(r *hx.Rng, seed uint64) PerturbParams {
+	p := PerturbParams{Seed: seed, Councilor: r.Chance(40), VoteBefore: r.Chance(60), Perturb: perturbations[r.Intn(len(perturbations))]}
+	for t := range propTypes {
+		switch r.Intn(3) {
+		case 0:
+			p.Individual = append(p.Individual, t)
+		case 1:
+			p.ViaRole = append(p.ViaRole, t)
+		}
+	}
+	return p
+}
+
+// Account a1 (owner of validator 1) holds vote permissions individually and through a role, optionally a councilor
+// seat and a vote on a pending proposal. Then ANOTHER module or message rewrites that state (both address
+// rotations, role unassignment, blacklisting, permission removal). Afterwards one proposal of EVERY proposal
+// type is created, approved and run through its voting end and enactment in the real gov end-blocker.
+func runPerturb(p PerturbParams, ops hx.Counter) []Case {
+	h := NewH(abci.Config{Accounts: 6, Validators: 2, Seed: p.Seed}, ops)
+	c := h.C
+	log := []string{fmt.Sprintf("chain accounts=6 validators=2 (owners a0, a1) seed=%d", p.Seed)}
+	a0, a1 := c.Accounts[0].Addr, c.Accounts[1].Addr
+	proof := []byte("c06-perturb-proof")
+	sum := sha256.Sum256(proof)
+	h.Block(BlockReq{Dt: 5}, func() {
+		for _, t := range p.Individual {
+			res := h.Tx("whitelist-permission", 0, govtypes.NewMsgWhitelistPermissions(a0, a1, uint32(propTypes[t].perm)))
+			log = append(log, fmt.Sprintf("a0 whitelists the vote permission of %s for a1 individually code=%d", propTypes[t].name, res.Code))
+		}
+		h.Tx("create-role", 0, govtypes.NewMsgCreateRole(a0, "perturbed", "role"))
+		for _, t := range p.ViaRole {
+			h.Tx("whitelist-role-permission", 0, govtypes.NewMsgWhitelistRolePermission(a0, "perturbed", uint32(propTypes[t].perm)))
+		}
+		res := h.Tx("assign-role", 0, govtypes.NewMsgAssignRole(a0, a1, 3))
+		log = append(log, fmt.Sprintf("a0 creates role perturbed(3) carrying the vote permissions of the types %v and assigns it to a1 (and a2) code=%d", p.ViaRole, res.Code))
+		h.Tx("assign-role", 0, govtypes.NewMsgAssignRole(a0, c.Accounts[2].Addr, 3))
+		if p.Councilor {
+			h.Tx("whitelist-permission", 0, govtypes.NewMsgWhitelistPermissions(a0, a1, uint32(govtypes.PermClaimCouncilor)))
+			res = h.Tx("claim-councilor", 1, govtypes.NewMsgClaimCouncilor(a1, "counc", "counc", "d", "s", "c", "a"))
+			log = append(log, fmt.Sprintf("a1 claims a councilor seat code=%d", res.Code))
+		}
+		res = h.Tx("register-recovery-secret", 1, recoverytypes.NewMsgRegisterRecoverySecret(a1.String(), hex.EncodeToString(sum[:]), "nonce", ""))
+		log = append(log, fmt.Sprintf("a1 registers a recovery secret code=%d", res.Code))
+		if p.Perturb == "rotate-validator" {
+			h.Tx("register-identity-records", 1, govtypes.NewMsgRegisterIdentityRecords(a1, []govtypes.IdentityInfoEntry{{Key: "moniker", Info: "valone"}}))
+			res = h.Tx("issue-recovery-tokens", 1, recoverytypes.NewMsgIssueRecoveryTokens(a1.String()))
+			n, _ := sdk.NewIntFromString("6000000000000")
+			h.Tx("bank-send", 1, banktypes.NewMsgSend(a1, c.Accounts[5].Addr, sdk.NewCoins(sdk.NewCoin("rr/valone", n))))
+			log = append(log, fmt.Sprintf("a1 issues recovery tokens (code=%d) and sends 60%% of them to a5", res.Code))
+		}
+	}, nil)
+	pid := uint64(0)
+	if p.VoteBefore && len(p.Individual)+len(p.ViaRole) > 0 {
+		t := append(append([]int{}, p.Individual...), p.ViaRole...)[0]
+		h.Block(BlockReq{Dt: 5, Proposer: 1}, func() {
+			msg, _ := govtypes.NewMsgSubmitProposal(a0, "t", "d", propTypes[t].mk(c, 90))
+			if res := h.Tx("submit-proposal", 0, msg); res.Code == 0 {
+				pid++
+				res = h.Tx("vote-proposal", 1, govtypes.NewMsgVoteProposal(pid, a1, govtypes.OptionNo, sdk.ZeroDec()))
+				log = append(log, fmt.Sprintf("a0 submits %s; a1 votes no on it code=%d", propTypes[t].name, res.Code))
+			}
+		}, nil)
+	}
+	h.Block(BlockReq{Dt: 5}, func() {
+		fresh := sdk.AccAddress([]byte("c06-perturbed-addr!!"))
+		switch p.Perturb {
+		case "rotate":
+			res := h.Tx("rotate-recovery-address", 1, recoverytypes.NewMsgRotateRecoveryAddress(a1.String(), a1.String(), fresh.String(), hex.EncodeToString(proof)))
+			log = append(log, fmt.Sprintf("a1 rotates its address with MsgRotateRecoveryAddress code=%d %s", res.Code, short(res.Log)))
+		case "rotate-validator":
+			res := h.Tx("rotate-validator-by-rr-holder", 5, recoverytypes.NewMsgRotateValidatorByHalfRRTokenHolder(c.Accounts[5].Addr.String(), a1.String(), fresh.String()))
+			log = append(log, fmt.Sprintf("a5 (60%% of the RR tokens) rotates validator owner a1 with MsgRotateValidatorByHalfRRTokenHolder code=%d %s", res.Code, short(res.Log)))
+		case "unassign-role":
+			res := h.Tx("unassign-role", 0, govtypes.NewMsgUnassignRole(a0, a1, 3))
+			log = append(log, fmt.Sprintf("a0 unassigns role perturbed from a1 code=%d", res.Code))
+		case "blacklist":
+			for _, t := range append(append([]int{}, p.Individual...), p.ViaRole...) {
+				h.Tx("blacklist-permission", 0, govtypes.NewMsgBlacklistPermissions(a0, a1, uint32(propTypes[t].perm)))
+			}
+			log = append(log, "a0 blacklists every vote permission a1 holds")
+		case "remove-permission":
+			for _, t := range p.Individual {
+				h.Tx("remove-whitelisted-permission", 0, govtypes.NewMsgRemoveWhitelistedPermissions(a0, a1, uint32(propTypes[t].perm)))
+			}
+			log = append(log, "a0 removes every individually whitelisted vote permission of a1")
+		}
+	}, nil)
+	h.Block(BlockReq{Dt: 5, Proposer: 1}, func() {
+		for t := range propTypes {
+			msg, err := govtypes.NewMsgSubmitProposal(a0, "t", "d", propTypes[t].mk(c, t))
+			if err != nil {
+				continue
+			}
+			if res := h.Tx("submit-proposal", 0, msg); res.Code == 0 {
+				pid++
+				h.Tx("vote-proposal", 0, govtypes.NewMsgVoteProposal(pid, a0, govtypes.OptionYes, sdk.ZeroDec()))
+			}
+		}
+		log = append(log, "a0 submits and approves one proposal of EVERY proposal type of the table")
+	}, nil)
+	for i, dt := range []int64{310, 310, 5, 5} {
+		if !h.Block(BlockReq{Dt: dt, Proposer: i}, nil, nil) {
+			break
+		}
+	}
+	log = append(log, "blocks dt=310,310,5,5 (voting end and enactment of all of them)")
+	return []Case{histCase("actor-perturbation", h, log, p)}
 }
